@@ -58,4 +58,5 @@ def main() -> None:
     net.finish("bounded", "as C01, plus entry points stream_frames/flat_stream_to_file/sink.serialize/grouped_stream_to_file and namespace declarations on/off",
                "each case = (entry point, physical type, preset, frame size, ns flag, statement list)")
 if __name__ == "__main__":
-    main()
+    from common import run_main
+    run_main(main, "C03")
